@@ -26,6 +26,7 @@ type params struct {
 	P        int
 	Refuse   bool // broker refuses the resume of the first stream (non-conflict code)
 	NoClose   bool // (with Refuse) the close request the library sends for the refused stream is never answered
+	ResumeScope bool // schedule deviations in the stream supervisors' resume step (a second outage falls into it)
 	OpenScope bool // schedule deviations in the open calls themselves (between the open response and the subscriptions)
 	Zero     bool // the broker numbers stream aliases from 0
 	During   bool // the link is cut first (redial takes 3 s) and the InFlight call is issued during the outage
@@ -45,6 +46,9 @@ func (p params) name() string {
 	}
 	if p.NoClose {
 		return fmt.Sprintf("%s/%s/F%d/P%d/refuse%v/noclose", p.Streams, p.InFlight, p.F, p.P, p.Refuse)
+	}
+	if p.ResumeScope {
+		return fmt.Sprintf("%s/%s/F%d/P%d/resumescope", p.Streams, p.InFlight, p.F, p.P)
 	}
 	if p.OpenScope {
 		return fmt.Sprintf("%s/%s/F%d/P%d/openscope", p.Streams, p.InFlight, p.F, p.P)
@@ -84,6 +88,9 @@ func scenarios(tier string) []vlib.Scenario {
 	add(params{Kind: "e", Streams: "upR+upU", InFlight: "none", F: 1, Refuse: true, Zero: true})
 	add(params{Kind: "e", Streams: "upR+upU", InFlight: "none", F: 1, Refuse: true, Zero: true, P: 1})
 	add(params{Kind: "e", Streams: "up+down", InFlight: "none", F: 1, P: 1})
+	// a second outage that begins and ends while a supervisor is between "which connection" and "which outage count"
+	add(params{Kind: "e", Streams: "down", InFlight: "none", F: 2, P: 1, ResumeScope: true})
+	add(params{Kind: "e", Streams: "up", InFlight: "none", F: 2, P: 1, ResumeScope: true})
 	// an outage that begins and ends while an open call is between its response and its subscriptions
 	add(params{Kind: "e", Streams: "down", InFlight: "openup", F: 1, P: 1, OpenScope: true})
 	add(params{Kind: "e", Streams: "up", InFlight: "opendown", F: 1, P: 1, OpenScope: true})
@@ -123,6 +130,9 @@ func config(sc vlib.Scenario, tier string) vsched.Config {
 		return cfg
 	}
 	cfg.Scope = func(site string) bool {
+		if p.ResumeScope {
+			return strings.Contains(site, "OpenDownstream.func") || strings.Contains(site, "OpenUpstream.func") || strings.Contains(site, "(*Downstream).resume") || strings.Contains(site, "(*Upstream).resume")
+		}
 		if p.OpenScope {
 			return strings.HasPrefix(site, "iscp.(*Conn).OpenUpstream") || strings.HasPrefix(site, "iscp.(*Conn).OpenDownstream") || strings.Contains(site, "SendUpstreamOpenRequest") || strings.Contains(site, "SendDownstreamOpenRequest")
 		}
